@@ -78,7 +78,12 @@ def run(ctx, rep):
     # in the frames of its callers.  (Until fix (see known_findings.json) the two handlers searched the whole call stack first, which is dynamic scoping; an earlier
     # version of this rule had taken that order for the intended one.)
     OWN = ("bytecode::context::Ctx::load_local", "bytecode::stack::Stack::find_name_in_function")
-    for path in ("bytecode::instruction::implementations::load", "bytecode::instruction::implementations::make_function"):
+    resolvers = {"bytecode::instruction::implementations::load", "bytecode::instruction::implementations::make_function"}
+    for g_ in F.crates["bytecode"].fns:       # ... and every other handler that falls back on the whole call stack
+        if g_.path.startswith("bytecode::instruction::implementations::") and "{closure" not in g_.path and g_.calls_to("bytecode::context::Ctx::load_variable"):
+            resolvers.add(g_.path)
+    rep.floor("C07.lookup-precedence handlers resolving a variable name", len(resolvers), 2)
+    for path in sorted(resolvers):
         g = need(F, path)
         own = g.calls_to(OWN)
         lc = g.calls_to("bytecode::context::Ctx::load_callback_variable")
